@@ -24,7 +24,7 @@ From Coq Require Import List Bool String Ascii ZArith Permutation.
 From KV Require Import Eqb Str.
 From KV.Gen Require Import Tcodec.
 From KV.Model Require Import MCodecTxt MCodec.
-From KV.Proofs Require Import PCodecTxt PCodec PCodecData PCodecToy.
+From KV.Proofs Require Import PCodecTxt PCodec PCodecData PCodecObs PCodecToy.
 Import ListNotations.
 Local Open Scope list_scope.
 
@@ -102,6 +102,29 @@ Theorem C01_nested_rigs_any_order : forall O, fops_ok O -> forall sids (rows : t
 Proof. intros O OK. exact (read_rigs_save O OK tables_ok_now). Qed.
 Print Assumptions C01_nested_rigs_any_order.
 
+(* --- 6. observations: observations.txt has one line per (point3d_id, keypoints_type).  Whatever number of lines share
+       a point id (a 3-D point seen through several kinds of keypoints), the reloaded table is a permutation of the
+       saved one, and for EVERY point id and EVERY keypoints type the recorded (image, feature) list is the same -
+       in particular no kind of a point displaces another kind of the same point. *)
+Theorem C01_observations_every_kind_kept : forall O, fops_ok O -> forall (d d' : dataset O) rows, wf O d = true ->
+  load O (save O d) = Ok d' -> d_tab O d FObs = Some rows ->
+  exists rows', d_tab O d' FObs = Some rows' /\ Permutation rows' rows /\
+                forall pid kt, obs_of O pid kt rows' = obs_of O pid kt rows.
+Proof. intros O OK d d' rows W. exact (observations_kept O OK tables_ok_now d W d' rows). Qed.
+Print Assumptions C01_observations_every_kind_kept.
+
+(* --- 7. why the key must be the pair: a reader that stores each line with  observations[point3d_id] = {kind: pairs}
+       ([read_obs_point_keyed], NOT the code) returns strictly fewer rows than were saved for EVERY well-formed table
+       in which two rows share a point id - the whole class of datasets with a point seen through two kinds *)
+Theorem C01_obs_point_keyed_loses : forall O, fops_ok O -> forall rows : table O,
+  table_wf O fk_obs rows = true -> keys_nodup O 1 rows = false ->
+  exists rows', read_obs_point_keyed O (save_table O fk_obs rows) = Ok rows' /\ List.length rows' < List.length rows.
+Proof.
+  intros O OK rows W D. destruct (table_wf_inv O fk_obs rows W) as [HW _].
+  exact (obs_point_keyed_loses O OK tables_ok_now rows HW D).
+Qed.
+Print Assumptions C01_obs_point_keyed_loses.
+
 (* --- non-vacuity: the contracts are satisfiable ([toy]) and a dataset with all 18 parts is well formed *)
 Definition S (s : string) : cell toy := CStr (t_of s).
 Definition Fz (z : Z) : cell toy := @CFlt toy z.
@@ -127,13 +150,17 @@ Definition ex_tabs (f : tfile) : option (table toy) :=
   | FRec RAccel => Some [[CInt 5; S "acc"; Fz 1; Fz 2; Fz 3]]
   | FRec RGyro => Some [[CInt 5; S "gyr"; Fz 1; Fz 2; Fz 3]]
   | FRec RMag => Some [[CInt 5; S "mag"; Fz 1; Fz 2; Fz 3]]
-  | FObs => Some [[CInt 0; S "kp"; S "img0.jpg"; CInt 7]]
+  | FObs => Some [[CInt 0; S "kp2"; S "img0.jpg"; CInt 7; S "a b/img 1.jpg"; CInt 1];   (* point 0 through two kinds *)
+                  [CInt 4; S "kp2"; S "img0.jpg"; CInt 0];
+                  [CInt 0; S "kp"; S "img0.jpg"; CInt 7]]
   end.
 Definition ex_data : dataset toy :=
   {| d_tab := ex_tabs;
      d_feat := fun k => match k with
                         | KKeypoints => Some [{| fs_key := t_of "kp"; fs_cfg := [S "sift"; S "float32"; CInt 4];
-                                                 fs_images := [t_of "img0.jpg"] |}]
+                                                 fs_images := [t_of "img0.jpg"] |};
+                                              {| fs_key := t_of "kp2"; fs_cfg := [S "r2d2"; S "float32"; CInt 2];
+                                                 fs_images := [t_of "a b/img 1.jpg"; t_of "img0.jpg"] |}]
                         | KDescriptors => Some [{| fs_key := t_of "desc"; fs_cfg := [S "sift"; S "uint8"; CInt 128; S "kp"; S "L2"];
                                                    fs_images := [t_of "img0.jpg"; t_of "a b/img 1.jpg"] |}]
                         | KGlobal => Some [{| fs_key := t_of "gf"; fs_cfg := [S "netvlad"; S "float32"; CInt 4096; S "L2"];
@@ -153,8 +180,24 @@ Example C01_example : fops_ok toy /\ wf toy ex_data = true /\
   loaded_tab (load toy (save toy ex_data)) FTraj =
     Some (Some [[CInt (-3); S "cam0"; Fz 1; Fz 0; Fz 0; Fz 0; Fz (-7); Fz 8; Fz 9];
                 [CInt 5; S "rig"; CNone; CNone; CNone; CNone; Fz 1; Fz 2; Fz 3]]) /\
-  loaded_tab (load toy (save toy ex_data)) FRigs = Some (ex_tabs FRigs).
-Proof. split; [exact toy_ok|]. repeat split; vm_compute; reflexivity. Qed.
+  loaded_tab (load toy (save toy ex_data)) FRigs = Some (ex_tabs FRigs) /\
+  loaded_tab (load toy (save toy ex_data)) FObs =
+    Some (Some [[CInt 0; S "kp"; S "img0.jpg"; CInt 7];
+                [CInt 0; S "kp2"; S "img0.jpg"; CInt 7; S "a b/img 1.jpg"; CInt 1];
+                [CInt 4; S "kp2"; S "img0.jpg"; CInt 0]]).
+Proof.      (* [vm_cast_no_check]: each equation is evaluated once, by the kernel's VM, at Qed *)
+  split; [exact toy_ok|].
+  split; [vm_cast_no_check (eq_refl true)|].
+  split; [vm_cast_no_check (@eq_refl (option (nat * table toy)) (Some (3%nat, [[Fz 1; Fz 2; Fz 3]])))|].
+  split; [vm_cast_no_check (@eq_refl (option (option (table toy)))
+            (Some (Some [[CInt (-3); S "cam0"; Fz 1; Fz 0; Fz 0; Fz 0; Fz (-7); Fz 8; Fz 9];
+                         [CInt 5; S "rig"; CNone; CNone; CNone; CNone; Fz 1; Fz 2; Fz 3]])))|].
+  split; [vm_cast_no_check (@eq_refl (option (option (table toy))) (Some (ex_tabs FRigs)))|].
+  vm_cast_no_check (@eq_refl (option (option (table toy)))
+    (Some (Some [[CInt 0; S "kp"; S "img0.jpg"; CInt 7];
+                 [CInt 0; S "kp2"; S "img0.jpg"; CInt 7; S "a b/img 1.jpg"; CInt 1];
+                 [CInt 4; S "kp2"; S "img0.jpg"; CInt 0]]))).
+Qed.
 
 (* --- the behaviour before the repairs is refuted (fixes/C01-roundtrip-empty-parts.patch):
        (a) an empty XYZ-only point cloud came back with 6 columns (points3d_from_file tested the first line
@@ -199,3 +242,35 @@ Lemma C01_asis_matches_refuted :
   loaded_matches (load_ideal_matches toy (save toy nonnorm_data)) = Some (d_matches toy nonnorm_data) /\
   d_matches toy (canon_asis toy nonnorm_data) = Some [(t_of "kp", [])].
 Proof. repeat split; vm_compute; reflexivity. Qed.
+
+(* --- the key of an observation row is the PAIR (point3d_id, keypoints_type).  A reader keyed by the point id alone
+       (each line stored with  observations[point3d_id] = {kind: pairs}) is NOT what the theorems above are about:
+       on a well-formed table in which point 0 is seen through "r2d2" and "sift" it keeps only the line read last,
+       while the reader of the code ([read_obs]) returns the three rows. *)
+Definition obs_two_kinds : table toy :=
+  [[CInt 0; S "sift"; S "a.jpg"; CInt 0; S "b.jpg"; CInt 1]; [CInt 0; S "r2d2"; S "a.jpg"; CInt 2; S "b.jpg"; CInt 0];
+   [CInt 1; S "sift"; S "a.jpg"; CInt 1]].
+
+Definition obs_two_kinds_point_keyed : table toy :=
+  [[CInt 0; S "sift"; S "a.jpg"; CInt 0; S "b.jpg"; CInt 1]; [CInt 1; S "sift"; S "a.jpg"; CInt 1]].
+
+Lemma C01_obs_point_keyed_refuted :
+  table_wf toy fk_obs obs_two_kinds = true /\
+  read_obs toy None (save_table toy fk_obs obs_two_kinds) =
+    Ok [[CInt 0; S "r2d2"; S "a.jpg"; CInt 2; S "b.jpg"; CInt 0]; [CInt 0; S "sift"; S "a.jpg"; CInt 0; S "b.jpg"; CInt 1];
+        [CInt 1; S "sift"; S "a.jpg"; CInt 1]] /\
+  read_obs_point_keyed toy (save_table toy fk_obs obs_two_kinds) = Ok obs_two_kinds_point_keyed /\
+  obs_of toy (CInt 0) (t_of "r2d2") obs_two_kinds = Some [S "a.jpg"; CInt 2; S "b.jpg"; CInt 0] /\
+  obs_of toy (CInt 0) (t_of "r2d2") obs_two_kinds_point_keyed = None.
+Proof.      (* [vm_cast_no_check]: each equation is evaluated once, by the kernel's VM, at Qed *)
+  split; [vm_cast_no_check (eq_refl true)|].
+  split; [vm_cast_no_check (@eq_refl (result (table toy))
+            (Ok [[CInt 0; S "r2d2"; S "a.jpg"; CInt 2; S "b.jpg"; CInt 0]; [CInt 0; S "sift"; S "a.jpg"; CInt 0; S "b.jpg"; CInt 1];
+                 [CInt 1; S "sift"; S "a.jpg"; CInt 1]]))|].
+  split; [vm_cast_no_check (@eq_refl (result (table toy)) (Ok obs_two_kinds_point_keyed))|].
+  split; [vm_cast_no_check (@eq_refl (option (row toy)) (Some [S "a.jpg"; CInt 2; S "b.jpg"; CInt 0]))|].
+  vm_cast_no_check (@eq_refl (option (row toy)) None).
+Qed.
+
+Example C01_obs_two_kinds_share_a_point : keys_nodup toy 1 obs_two_kinds = false /\ keys_nodup toy 2 obs_two_kinds = true.
+Proof. split; [vm_cast_no_check (eq_refl false)|vm_cast_no_check (eq_refl true)]. Qed.
